@@ -18,5 +18,5 @@ CONF = {
     'assumptions': ['bufio.Reader / io.Reader by their specification (no 100 consecutive empty reads)', 'gzip (stdlib) not modelled: exercised by the oracle only',
                     'allocation requests are modelled and measured, not resident memory'],
     'trusted_base': ['model: coq/Model/NgModel.v is a hand transcription of pcapgo/ngread.go, ngread_nrb.go, ngread_dsb.go, pcapng.go (line ranges in its header)'],
-    'explanation': 'C15_ng_* are proved for every chunked stream about the model reader; the correspondence run ties it to the code.',
+    'explanation': 'C15_ng_fail_surfaces (proved): when the stream ends with a read error, neither NewNgReader nor the terminal read reports io.EOF / io.ErrUnexpectedEOF - the weakest-precondition calculus tracks how the last stream operation ended and allows those classes only after a real end of stream. C15_ng_* are proved for every chunked stream about the model reader; the correspondence run ties it to the code.',
 }
